@@ -133,5 +133,5 @@ def run(prog, rep, tier):
                 "induced_subgraph", "is_clique", "is_complete", "degrees", "vstructures", "moral_graph")]
     pattern_entries(prog, rep, entries, not_charged=(U + "topological_ordering", U + "is_dag"))
     rep.require_count("PAT.entry", 12)
-    rep.coverage_exhaustive = True
+    rep.exhaustive = True
     rep.assume("input domain of the tables: binary PDAGs and DAG weight matrices of any sign (8 admissible entry pairs)")
